@@ -158,10 +158,15 @@ func (c *tracingHTTP2Conn) handleFrame(frame http2.Frame, isRequest bool) {
 			c.receiveResponseLocked(stream, frame)
 		case isRequest:
 			// request trailers
-			stream.builder.trace.Request.Trailer = makeHeaders(frame)
+			// (the trace is empty for streams w/out a test name or already finished)
+			if req := stream.builder.trace.Request; req != nil {
+				req.Trailer = makeHeaders(frame)
+			}
 		default:
 			// response trailers
-			stream.builder.trace.Response.Trailer = makeHeaders(frame)
+			if resp := stream.builder.trace.Response; resp != nil {
+				resp.Trailer = makeHeaders(frame)
+			}
 		}
 		if frame.StreamEnded() {
 			c.closeStreamLocked(frame.StreamID, stream, isRequest, nil)
